@@ -58,9 +58,12 @@ impl ShardContext {
 
         // Step 2: Load existing segment IDs
         let segment_id_loader = SegmentIdLoader::new(base_dir.clone());
-        let segment_ids = Arc::new(RwLock::new(segment_id_loader.load()));
+        // Only published segments become live; the allocator still sees every directory on
+        // disk so that a leftover directory is never handed out again.
+        let all_dirs = segment_id_loader.load();
+        let segment_ids = Arc::new(RwLock::new(segment_id_loader.load_published(&all_dirs)));
         let segment_id = SegmentIdLoader::next_id(&segment_ids);
-        let existing: Vec<String> = segment_ids.read().unwrap().clone();
+        let existing: Vec<String> = all_dirs;
         let allocator = RangeAllocator::from_existing_ids(existing.iter().map(|s| s.as_str()));
         let mut allocator_preview = allocator.clone();
         let next_l0_id = allocator_preview.next_for_level(0);
